@@ -28,11 +28,27 @@ def _from_args(fn):
     return out
 
 
-def sigil_sites(fn):
-    """[(subscript node, name, completed?)] for `name[-1:]` / `name[-1]` on a name that comes from the argument stream."""
+def sigil_sites(fn, from_params=()):
+    """[(subscript node, name, completed?)] for `name[-1:]` / `name[-1]` on a name that comes from the argument stream
+    (or from iterating over one of the parameters listed in from_params)."""
     names = _from_args(fn)
+    for n in own_nodes(fn):
+        src = tgt = None
+        if isinstance(n, ast.Assign):
+            src, tgt = n.value, n.targets[0]
+        elif isinstance(n, (ast.For, ast.comprehension)):
+            src, tgt = n.iter, n.target
+        if src is not None and isinstance(src, ast.Name) and src.id in from_params or \
+                (src is not None and isinstance(src, ast.Name) and src.id in names and isinstance(tgt, ast.Tuple)):
+            for x in ast.walk(tgt):
+                if isinstance(x, ast.Name):
+                    names.add(x.id)
     sites = []
     for s in own_nodes(fn):
+        # completed in place:  complete_name(name)[-1:]
+        if isinstance(s, ast.Subscript) and isinstance(s.ctx, ast.Load) and norm(s.slice) in ('-1:', '-1') and isinstance(s.value, ast.Call) \
+                and norm(s.value.func).endswith('complete_name') and s.value.args and isinstance(s.value.args[0], ast.Name) and s.value.args[0].id in names:
+            sites.append((s, s.value.args[0].id, True))
         if isinstance(s, ast.Subscript) and isinstance(s.value, ast.Name) and isinstance(s.ctx, ast.Load) and norm(s.slice) in ('-1:', '-1') and s.value.id in names:
             nm = s.value.id
             done = [a for a in own_nodes(fn) if isinstance(a, ast.Assign) and 'complete_name' in norm(a.value)
@@ -43,12 +59,12 @@ def sigil_sites(fn):
     return sites
 
 
-def check(ctx, rep, specs, floor, rule='names.sigil-read-from-completed-name'):
+def check(ctx, rep, specs, floor, rule='names.sigil-read-from-completed-name', from_params=()):
     n = 0
     for spec in specs:
         fn = ctx.fn(spec)
         fl = ctx.flow(fn)
-        for s, nm, ok in sigil_sites(fn):
+        for s, nm, ok in sigil_sites(fn, from_params):
             n += 1
             rep.ob(rule, '%s: %s in `%s`' % (spec.split(':')[1], norm(s), short(fl.stmt_of(s), 50)), ok,
                    'the type character is read from the name as written: a variable typed by DEFINT / DEFSTR / DEFDBL is treated as the default type', ctx.where(s))
